@@ -452,7 +452,9 @@ pub fn xdigest(sc: &Scenario) -> (String, u64, u64) {
             x => vec![*x],
         })
         .collect();
+    crate::run::FREE_RUN.with(|f| f.set(true));
     let ro = crate::run::run_calls(&mut b, &s2, &StratSpec::NoPreempt, 0, None);
+    crate::run::FREE_RUN.with(|f| f.set(false));
     let mut h = 0xcbf2_9ce4_8422_2325u64;
     let mut eat = |x: u64| {
         h ^= x;
